@@ -32,7 +32,7 @@ pub const EULER_ALL: [EulerRot; 24] = [
     EulerRot::XYZEx, EulerRot::XZYEx, EulerRot::ZYZEx, EulerRot::ZXZEx, EulerRot::YXYEx, EulerRot::YZYEx, EulerRot::XYXEx, EulerRot::XZXEx,
 ];
 
-pub const N_OPS: usize = 55;
+pub const N_OPS: usize = 56;
 pub const STEP_WORDS: usize = 12;
 pub const MAX_STEPS: usize = 12;
 
@@ -400,6 +400,46 @@ macro_rules! family {
                         }
                         if fed { s.consumer_steps_on_produced += 1; }
                         "rotation constructors (3x3 / affine)"
+                    }
+                    55 => {
+                        // (a) the same rotation stored with the opposite sign is a valid second operand of every interpolation;
+                        // (b) a quaternion that is unit by `is_normalized` (2e-4 on |q|^2) but not to rounding - a literal with
+                        // four decimals, a long product - is a valid argument of every consumer of unit quaternions
+                        let (q, fed) = uq(c, s);
+                        s.p_uq("Quat::slerp(q, -q, 0.5)", q.slerp(-q, 0.5));
+                        s.p_uq("Quat::slerp(q, -q, s)", q.slerp(-q, unit_s(c)));
+                        s.p_uq("Quat::lerp(q, -q, 0.5)", q.lerp(-q, 0.5));
+                        s.p_uq("Quat::rotate_towards(q, -q, a)", q.rotate_towards(-q, c.r(0.0, 4.0) as F));
+                        let mag = 1e-6 * (90.0f64).powf(c.r(0.0, 1.0));
+                        let k = (1.0 + if c.idx(2) == 0 { mag } else { -mag }) as F;
+                        let qn = q * k;
+                        if qn.is_normalized() {
+                            let v = seed_v3(c);
+                            s.o3(qn * v);
+                            s.o3(qn.mul_vec3(v));
+                            s.oq(qn.inverse());
+                            let (ax, an) = qn.to_axis_angle();
+                            s.o3(ax);
+                            s.of(an);
+                            s.o3(qn.to_scaled_axis());
+                            let e = qn.to_euler(EULER_ALL[c.idx(24)]);
+                            s.of(e.0);
+                            s.of(e.1);
+                            s.of(e.2);
+                            s.om3($M3::from_quat(qn));
+                            s.om4($M4::from_quat(qn));
+                            s.om4($M4::from_rotation_translation(qn, v));
+                            s.om4($M4::from_scale_rotation_translation(seed_scale(c), qn, v));
+                            s.oa3($A3::from_quat(qn));
+                            s.oa3($A3::from_rotation_translation(qn, v));
+                            let (p, _) = uq(c, s);
+                            s.of(qn.angle_between(p));
+                            s.oq(qn.slerp(p, unit_s(c)));
+                            s.oq(qn.lerp(p, unit_s(c)));
+                            s.oq(qn * p);
+                        }
+                        if fed { s.consumer_steps_on_produced += 1; }
+                        "negated end points; nearly-unit quaternions"
                     }
                     _ => { let (q, fed) = uq(c, s); if let Some(a) = pick(c, &s.a3) { let _ = a; } let m = $M3::from_quat(q); s.oq($Q::from_mat3(&m)); let m4_ = $M4::from_quat(q); s.oq($Q::from_mat4(&m4_)); if fed { s.consumer_steps_on_produced += 1; } "quat<->mat round trip" }
                 }
